@@ -64,6 +64,11 @@ def gen_plan(seed: int, run: int, tier: str) -> dict:
         "p_seam": rng.choice([0.1, 0.3, 0.6]),
         "short_writes": rng.random() < 0.3,
     }
+    if cfg["grace_period"] is not None and rng.random() < 0.3:
+        # slow disk: some fsyncs take half a grace period - their callers hold the lock that
+        # long, alive; a waiter that has been waiting for longer than the grace period *in
+        # total* (over several such holders) must not break anybody's lock
+        cfg["slow_fsync"] = [{"task": rng.choice(sorted(tasks)), "nth": rng.randint(0, 4)} for _ in range(rng.randint(1, 4))]
     if rng.random() < 0.3:
         # a transient error when the lock file is created (EMFILE / ENOSPC / EIO): that append
         # fails without having held the lock, everybody else must be unaffected
@@ -172,6 +177,21 @@ def _run(plan: dict, sim: sched.Sim, ch: sched.Chooser, dep: deploy.Deployment) 
         srng = _r.Random(cfg.get("chunk_seed", 1) ^ 0x51)
         fs.short_writer = lambda task, n: n if n <= 1 or srng.random() < 0.5 else srng.randrange(1, n)
     backends = {n: mk_backend() for n in sorted(plan["tasks"])}
+    slow_fsync = [dict(f) for f in cfg.get("slow_fsync", [])]
+    if slow_fsync and cfg.get("grace_period"):
+        nsync: dict[str, int] = {}
+
+        def slow(task: Any, op: str) -> Any:
+            if task is None:
+                return None
+            nsync[task.name] = nsync.get(task.name, 0) + 1
+            for f in slow_fsync:
+                if not f.get("fired") and f["task"] == task.name and f["nth"] == nsync[task.name] - 1:
+                    f["fired"] = True
+                    return 0.5 * float(cfg["grace_period"])
+            return None
+
+        fs.slow = slow
     create_faults = [dict(f) for f in cfg.get("create_faults", [])]
     ncreate: dict[str, int] = {}
     injected: list[BaseException] = []
